@@ -53,6 +53,8 @@ def csv_stream(rng, nfiles, streams, viol, samples):
     H("H-3;1.5;mol\nH-3;2.5;mol\nHe-3;1.0;g\n", {"delimiter": ";", "inventory_type": "InventoryHP"},
       [["H-3", 1.5, "mol"], ["H-3", 2.5, "mol"], ["He-3", 1.0, "g"]])
     H("U-238\t1e3\tBq\nU-235\t2e3\tBq\n", {"delimiter": "\t", "units": "num"}, [["U-238", 1e3, "Bq"], ["U-235", 2e3, "Bq"]])
+    hw.append({"text": "H-3,1.0,num\n\nC-14,2.0,num\n", "kwargs": {}, "direct": None, "expect_err": "ValueError"})
+    hw.append({"text": "title\n\nH-3,1.0,num\nC-14,2.0,num\n", "kwargs": {"skip_rows": 2}, "direct": [["H-3", 1.0, "num"], ["C-14", 2.0, "num"]]})
     for _ in range(30):
         rows, direct = [], []
         for _ in range(rng.randint(1, 8)):
@@ -71,7 +73,14 @@ def csv_stream(rng, nfiles, streams, viol, samples):
             kw["units"] = arg
         if hp:
             kw["inventory_type"] = "InventoryHP"
-        H("\n".join(rows) + "\n", kw, direct)
+        # an arbitrary preamble (titles, column headers, blank lines, stray separators) that skip_rows must skip EXACTLY
+        if rng.random() < 0.5:
+            pre = [rng.choice(["", "Inventory export 2024-05-01", "nuclide,quantity,unit", " ", "# comment", "a,b,c,d", "H-3,99.0,num", ","])
+                   for _ in range(rng.randint(1, 4))]
+            kw["skip_rows"] = len(pre)
+            H("\n".join(pre + rows) + "\n", kw, direct)
+        else:
+            H("\n".join(rows) + "\n", kw, direct)
     # the recorded known-finding input: an amount below ~1e-32 is flushed to zero by the high-precision class
     hw.append({"text": "Sr-90,1e-33,num\n", "kwargs": {"inventory_type": "InventoryHP"}, "direct": None, "probe": "hp-tiny"})
     res = U.run_impl("impl_csv.py", {"roundtrips": rts, "handwritten": hw}, timeout=3000)
@@ -111,6 +120,10 @@ def csv_stream(rng, nfiles, streams, viol, samples):
         if c["cls"] == "InventoryHP" and any(t in ("Float", "float", "float64") for t in r["back"]["types"]):
             bad.append((c, "high-precision inventory read back with inexact (float) amounts", r))
     for c, r in zip(hw, res["handwritten"]):
+        if c.get("expect_err"):
+            if r.get("err") != c["expect_err"]:
+                bad.append((c, f"a row without 2 or 3 fields must be refused with {c['expect_err']}, got {r.get('err', 'accepted')}", r))
+            continue
         if c["direct"] is None:
             continue
         if ("err" in r) != ("direct_err" in r):
